@@ -102,9 +102,21 @@ class Norm:
                 if res.end != "return":
                     continue
                 v = paths.path_value(b, tb, res.blocks, ("deref", 1))
-                if v == ("init", ("deref", 1)) and choice[aff[0]] != 0:
+                if v == ("init", ("deref", 1)) and choice[aff[0]] != 0 and not self._tested_identity(asg):
                     return False
         return True
+
+    @staticmethod
+    def _tested_identity(asg):
+        """an `is_zero(*self)` / `is_zero(self.0)` test came out true on this path: the identity is its own normal form"""
+        for a, v in asg.items():
+            if v == 1 and a[0] == "bool" and a[1][0] == "call" and a[1][1].name == "is_zero" and len(a[1][2]) == 1:
+                y = strip(a[1][2][0])
+                while y[0] == "field" and y[2] == 0:
+                    y = strip(y[1])
+                if y == ("init", ("deref", 1)):
+                    return True
+        return False
 
     # -------------------------------------------------------------- direct reads
     def coord_reads(self, body, p):
@@ -255,12 +267,72 @@ class Norm:
         t = strip(term)
         norm_all, nonid_all = True, True
         descs = []
-        for a in alts(t):
-            n, z, d = self._state1(body, tb, a, site_bb)
+        res = [self._state1(body, tb, a, site_bb) + (a,) for a in alts(t)]
+        for n, z, d, a in res:
+            if not n and self._normalised_or_identity(body, tb, a, [x[3] for x in res if x[0]], site_bb):
+                n = True
+                d += " (reaches the call only over an is_zero edge; normalised otherwise)"
             norm_all &= n
             nonid_all &= z
             descs.append(d)
         return norm_all, nonid_all, "; ".join(descs)
+
+    def _unwrap(self, body, y):
+        y = strip(y)
+        while y[0] == "field" and y[2] == 0 and peel(type_of_term(self.F, body, y[1]) or "") in WRAPPERS:
+            y = strip(y[1])
+        return y
+
+    def _normalised_or_identity(self, body, tb, raw, normed, site_bb):
+        """`raw` is the un-normalised alternative of a merge whose other alternatives are normalizer results on the same
+        value: sound iff every path to the call site runs through the normalizer call or over the true edge of
+        `is_zero(raw)` (the identity is its own normal form)."""
+        raw = self._unwrap(body, self._through(body, strip(raw)))
+        nblocks = set()
+        for a in normed:
+            cur = self._unwrap(body, self._through(body, strip(a)))
+            while cur[0] == "mutcall" and cur[1].d in self.normalizers and cur[3] == 0:
+                nblocks.add(cur[4])
+                cur = self._unwrap(body, cur[2][0])
+            if cur != raw:
+                return False
+        if not nblocks:
+            return False
+        cut = set()       # (from, to) edges on which is_zero(raw) holds
+        for bi in sorted(body.reachable()):
+            term = body.blocks[bi]["term"]
+            if term["k"] != "switch":
+                continue
+            d = tb.operand(term["discr"], bi, len(body.blocks[bi]["stmts"]))
+            neg = False
+            while d[0] == "unop" and d[1] == "Not":
+                d = d[2]
+                neg = not neg
+            if d[0] != "call" or d[1].name != "is_zero" or len(d[2]) != 1 or self._unwrap(body, d[2][0]) != raw:
+                continue
+            want = 0 if neg else 1
+            tgt = term["otherwise"]
+            for val, tg in term["arms"]:
+                if int(val) == want:
+                    tgt = tg
+            others = {tg for val, tg in term["arms"]} | {term["otherwise"]}
+            if len(others) == 2:
+                cut.add((bi, tgt))
+        if not cut:
+            return False
+        succ = body.succ()
+        seen, todo = set(), [0]
+        while todo:
+            x = todo.pop()
+            if x in seen or x in nblocks:
+                continue
+            seen.add(x)
+            if x == site_bb:
+                return False
+            for y in succ[x]:
+                if (x, y) not in cut:
+                    todo.append(y)
+        return True
 
     def base_param(self, body, t):
         """If the term designates (a z-preserving image of) an unchanged G-typed parameter of `body`, that parameter."""
